@@ -41,12 +41,13 @@ InDomain(type, enumNames, out) ==
     [] type = "Float" -> IsNumber(out) /\ Finite(out)
     [] type \in {"String", "ID"} -> out.kind = "str"
     [] type = "Boolean" -> out.kind = "bool"
-    [] type = "Enum" -> out.kind = "str" /\ out.text \in enumNames
+    [] type = "Enum" -> out.kind = "str" /\ \E k \in 1..Len(enumNames) : enumNames[k] = out.text
 
 \* no silent loss: when the input denotes an integer and the output is a number, they are the same number;
 \* a float passes through unchanged; a number emitted as text (String/ID) spells an integer input exactly
 Faithful(type, in, out) ==
-  /\ (DenotesInteger(in) /\ IsNumber(out) => SameNumber(AsNumber(in), AsNumber(out)))
+  /\ ((in.kind \in {"int", "bool"} \/ (in.kind = "str" /\ in.numeric = "int" /\ type = "Int")) /\ IsNumber(out)
+        => SameNumber(AsNumber(in), AsNumber(out)))
   /\ (in.kind = "float" /\ Finite(in) /\ IsNumber(out) => SameNumber(AsNumber(in), AsNumber(out)))
   /\ (type = "Boolean" /\ in.kind = "bool" => out.b = in.b)
   /\ (type \in {"String", "ID"} /\ in.kind = "str" => out.text = in.text)
@@ -57,6 +58,11 @@ SameMeaning(a, b) ==
   \/ (a.kind = "bool" /\ b.kind = "bool" /\ a.b = b.b)
   \/ (IsNumber(a) /\ IsNumber(b) /\ Finite(a) /\ Finite(b) /\ SameNumber(AsNumber(a), AsNumber(b)))
   \/ (a.kind = "str" /\ b.kind = "str" /\ a.text = b.text)
+
+\* diagnostic only (MODEL-DRIFT): decimal text is inherently approximated by a double; an integer spelled as text
+\* beyond 2^53 is rounded by the Float type without an error, unlike an int of the same value
+TextIntegerRounded(type, in, out) ==
+  type = "Float" /\ in.kind = "str" /\ in.numeric = "int" /\ IsNumber(out) /\ ~SameNumber(AsNumber(in), AsNumber(out))
 
 \* record: [type, enumNames, in, err, out, backErr, back, enumBackSame]
 Clause(c) ==
